@@ -1041,3 +1041,6 @@ CASES += [
  dict(id='mut-clique-counting-list-skips-a-vertex', kind='fire', file=C, old='vertices.iter().cloned().collect::<Vec<String>>().join(", "),', new='vertices.iter().skip(1).cloned().collect::<Vec<String>>().join(", "),', expect={'C16': 'complete walk'}, control=False),
  dict(id='mut-listing-printed-unasked', kind='fire', file=M, old='    if args.vars {', new='    if true {', expect={'C10': 'only on request'}, control=False),
 ]
+CASES += [
+ dict(id='mut-clique-maximality-block-without-true-alternative', kind='fire', file=C, old='            if edges_complement.is_empty() {\n                "  true".to_string()', new='            if false {\n                "  true".to_string()', expect={'C16': 'empty constraint block'}, control=False),
+]
